@@ -8,7 +8,7 @@ One event per input() call (prompt = last line printed before the read, answer c
 the outcome (Return value / EofError / Raise)."""
 from __future__ import print_function, unicode_literals
 import sys, json, io
-from obs import esc, unesc
+from obs import esc, unesc, hb_iter
 
 VERSION = {"2": 2, "3.0": 3.0, "3.1": 3.1, "4.0": 4.0}
 
@@ -103,7 +103,7 @@ def session(it):
 
 def main():
     job = json.load(io.open(sys.argv[1], encoding="utf-8"))
-    res = [session(it) for it in job["items"]]
+    res = [session(it) for it in hb_iter(job["items"])]
     data = json.dumps(res, separators=(",", ":"), ensure_ascii=True)
     with io.open(job["out"], "w", encoding="utf-8") as fh:
         fh.write(data if sys.version_info[0] > 2 else data.decode("ascii"))
